@@ -983,3 +983,31 @@ package schema
 // The run table lock is never left held (a later call for the same step would block forever).
 //@ func CallableStepSchema.setupStepData(s, runID) -> res
 //@   ensures !locked(s)
+
+// C01: integer enums (EnumSchema[int64, int64] embedded in IntEnumSchema)
+//@ abstract intEnumUnserOK(i IntEnumSchema, d any) bool
+//@ abstract intEnumUnserV(i IntEnumSchema, d any) any
+//@ func EnumSchema[int64,int64].asType(e, d) -> ser, unser, err
+//@   ensures typeOf(d) == type(int64) ==> err == nil && ser == d.(int64) && unser == d.(int64)
+//@   ensures err != nil ==> isCE(err) && fresh(err)
+//@   assigns nothing
+//@ func EnumSchema[int64,int64].Validate(e, d) -> err
+//@   ensures typeOf(d) == type(int64) ==> ((err == nil) == (d.(int64) in e.ValidValuesMap))
+//@   assigns nothing
+//@ func EnumSchema[int64,int64].Serialize(e, d) -> res, err
+//@   ensures typeOf(d) == type(int64) ==> res == d && ((err == nil) == (d.(int64) in e.ValidValuesMap))
+//@   assigns nothing
+//@ func EnumSchema[int64,int64].SerializeType(e, data) -> res, err
+//@   ensures res == any(data) && ((err == nil) == (data in e.ValidValuesMap))
+//@   assigns nothing
+//@ func IntEnumSchema.Unserialize(i, data) -> res, err
+//@   names (err == nil) == intEnumUnserOK(i, data)
+//@   names err == nil ==> res == intEnumUnserV(i, data)
+//@   ensures err == nil ==> typeOf(res) == type(int64) && res.(int64) in i.ValidValuesMap
+//@   ensures typeOf(data) == type(int64) ==> ((err == nil) == (data.(int64) in i.ValidValuesMap)) && (err == nil ==> res == data)
+//@   ensures typeOf(data) == type(uint64) && data.(uint64) <= 9223372036854775807 ==> ((err == nil) == (int64(data.(uint64)) in i.ValidValuesMap)) && (err == nil ==> res == any(int64(data.(uint64))))
+//@ func IntEnumSchema.UnserializeType(i, data) -> res, err
+//@   ensures (err == nil) == intEnumUnserOK(i, data)
+//@   ensures err == nil ==> any(res) == intEnumUnserV(i, data)
+//@ func verifC01IntEnum(s, data)
+//@   requires s != nil
